@@ -25,21 +25,21 @@ type FuncVal struct {
 }
 
 type St struct {
-	vars   map[types.Object]Term
-	ghost  map[string]Term
-	pc     []Term
-	heaps  map[string]Term // elem sort SMT -> heap term
-	hsort  map[string]*Sort
-	next   Term
-	mine   Term
-	mdom   map[string]Term // "K|V" -> Array Int (Array K Bool)
-	mval   map[string]Term
-	msorts map[string][2]*Sort
-	trn    map[string]Term   // callback -> number of calls so far
-	tra    map[string][]Term // callback -> per-parameter argument arrays (Array Int A)
-	bufh   Term              // heap of *bytes.Buffer contents: Array Int String
-	glob   map[string]Term   // abstract global state components (fs, stdout, ...), by name
-	dead   bool
+	vars         map[types.Object]Term
+	ghost        map[string]Term
+	pc           []Term
+	heaps        map[string]Term // elem sort SMT -> heap term
+	hsort        map[string]*Sort
+	next         Term
+	mine         Term
+	mdom         map[string]Term // "K|V" -> Array Int (Array K Bool)
+	mval         map[string]Term
+	msorts       map[string][2]*Sort
+	trn          map[string]Term   // callback -> number of calls so far
+	tra          map[string][]Term // callback -> per-parameter argument arrays (Array Int A)
+	bufh         Term              // heap of *bytes.Buffer contents: Array Int String
+	glob         map[string]Term   // abstract global state components (fs, stdout, ...), by name
+	dead         bool
 	pendingValid []Term
 }
 
@@ -95,47 +95,47 @@ func (st *St) assume(t Term) {
 
 // FuncCtx verifies one function.
 type FuncCtx struct {
-	E         *Engine
-	Ref       *FuncRef
-	Con       *Contract
-	Pkg       *packages.Package
-	Info      *types.Info
-	Prop      string
-	SliceMode string
-	StrMode   string
-	Sorts     *SortCtx
-	decls     []string
-	declSet   map[string]bool
-	axioms    []string // SMT assertions valid in every query (spec axioms instantiated lazily)
-	Obls      []*pendingObl
-	n         int
-	loopOrd   map[ast.Stmt]int
-	callOrd   map[*ast.CallExpr]int
-	callName  map[*ast.CallExpr]string
-	tsubst    map[string]*Sort
-	entry     *St
-	heapElems []*Sort
-	specDecl  map[string]bool
-	inlineDep int
-	unsup     int
-	Assumed   map[string]bool // trusted contracts / external assumptions used
-	infoStack []*types.Info
-	results   []types.Object
-	usedSpec  map[string]bool
-	overflow  bool
+	E                                                         *Engine
+	Ref                                                       *FuncRef
+	Con                                                       *Contract
+	Pkg                                                       *packages.Package
+	Info                                                      *types.Info
+	Prop                                                      string
+	SliceMode                                                 string
+	StrMode                                                   string
+	Sorts                                                     *SortCtx
+	decls                                                     []string
+	declSet                                                   map[string]bool
+	axioms                                                    []string // SMT assertions valid in every query (spec axioms instantiated lazily)
+	Obls                                                      []*pendingObl
+	n                                                         int
+	loopOrd                                                   map[ast.Stmt]int
+	callOrd                                                   map[*ast.CallExpr]int
+	callName                                                  map[*ast.CallExpr]string
+	tsubst                                                    map[string]*Sort
+	entry                                                     *St
+	heapElems                                                 []*Sort
+	specDecl                                                  map[string]bool
+	inlineDep                                                 int
+	unsup                                                     int
+	Assumed                                                   map[string]bool // trusted contracts / external assumptions used
+	infoStack                                                 []*types.Info
+	results                                                   []types.Object
+	usedSpec                                                  map[string]bool
+	overflow                                                  bool
 	nwrite, nchk, npanic, nanon, qn, pureDepth, nLoops, nwrap int
-	onPanic       func(*St, string)
-	inlStack      []string
-	specErrs      []string
-	pendingAxioms bool
-	lastCalleeGhosts map[string]Term
-	inlineSite string
-	pkgMapVals map[string][]Term
-	pendingPass map[string]Term
-	fvTArgs    map[string]*Sort
-	fvSig      *types.Signature
-	inlineRef  *FuncRef
-	Deps          map[string]bool
+	onPanic                                                   func(*St, string)
+	inlStack                                                  []string
+	specErrs                                                  []string
+	pendingAxioms                                             bool
+	lastCalleeGhosts                                          map[string]Term
+	inlineSite                                                string
+	pkgMapVals                                                map[string][]Term
+	pendingPass                                               map[string]Term
+	fvTArgs                                                   map[string]*Sort
+	fvSig                                                     *types.Signature
+	inlineRef                                                 *FuncRef
+	Deps                                                      map[string]bool
 }
 
 type pendingObl struct {
